@@ -64,10 +64,9 @@ Section ImpProofs.
   (* what a fresh object computes for a data_slice *)
   Definition c01_fresh_value (self : areaobj G) (sl : option SL) : G * G :=
     let pc := proj_coords self sl in let r := invproj self (fst pc, snd pc) in (fst r, snd r).
-  (* H_slice: slicing the lon/lats of the whole grid is computing the lon/lats of the slice *)
-  Definition c01_H_slice (self : areaobj G) : Prop :=
-    forall sl, (slice_arr (fst (c01_fresh_value self None)) sl, slice_arr (snd (c01_fresh_value self None)) sl)
-               = c01_fresh_value self (Some sl).
+  (* H_slice at a selection: slicing the lon/lats of the whole grid is computing the lon/lats of the slice *)
+  Definition c01_H_slice_at (self : areaobj G) (sl : SL) : Prop :=
+    (slice_arr (fst (c01_fresh_value self None)) sl, slice_arr (snd (c01_fresh_value self None)) sl) = c01_fresh_value self (Some sl).
 
   Lemma c01_obj_fresh self sl cache : ao_lons self = None ->
     c01_obj_get_lonlats self sl cache =
@@ -75,23 +74,27 @@ Section ImpProofs.
           c01_fresh_value self sl).
   Proof. destruct self as [lo la np dt crs]; cbn. intros ->. reflexivity. Qed.
 
-  Lemma imp_lonlats_history_stateless self0 : ao_lons self0 = None -> c01_H_slice self0 ->
-    forall calls, imp_lonlats_history self0 calls = map (fun c => Some (c01_fresh_value self0 (fst c))) calls.
+  Lemma imp_lonlats_history_stateless self0 : ao_lons self0 = None ->
+    forall calls, (forall sl cache, In (Some sl, cache) calls -> c01_H_slice_at self0 sl) ->
+    imp_lonlats_history self0 calls = map (fun c => Some (c01_fresh_value self0 (fst c))) calls.
   Proof.
-    intros Hn Hs calls.
+    intros Hn calls.
     set (W := c01_fresh_value self0 None).
-    assert (Inv : forall self, self = self0 \/ self = c01_with_cache self0 (fst W) (snd W) ->
+    assert (Inv : (forall sl cache, In (Some sl, cache) calls -> c01_H_slice_at self0 sl) ->
+                  forall self, self = self0 \/ self = c01_with_cache self0 (fst W) (snd W) ->
                   imp_lonlats_history self calls = map (fun c => Some (c01_fresh_value self0 (fst c))) calls).
-    { induction calls as [|[sl cache] rest IH]; intros self Hself; [reflexivity|].
+    { induction calls as [|[sl cache] rest IH]; intros Hs self Hself; [reflexivity|].
+      assert (Hrest : forall sl0' cache0, In (Some sl0', cache0) rest -> c01_H_slice_at self0 sl0')
+        by (intros ? ? Hin; eapply Hs; right; exact Hin).
       cbn [imp_lonlats_history map fst]. rewrite imp_get_lonlats_code_is_model.
       destruct Hself as [->| ->].
-      - rewrite (c01_obj_fresh self0 sl cache Hn). f_equal. apply IH.
+      - rewrite (c01_obj_fresh self0 sl cache Hn). f_equal. apply IH; [exact Hrest|].
         destruct cache; [|left; reflexivity]. destruct sl; cbn [andb c01_is_none]; [left; reflexivity|right; reflexivity].
       - unfold c01_obj_get_lonlats, c01_with_cache. cbn [ao_lons ao_lats].
         assert (E : (c01_osl (fst W) sl, c01_osl (snd W) sl) = c01_fresh_value self0 sl).
-        { destruct sl as [sl|]; cbn [c01_osl]; [apply Hs | unfold W; reflexivity]. }
-        rewrite E. f_equal. apply IH. right; reflexivity. }
-    apply Inv. left; reflexivity.
+        { destruct sl as [sl|]; cbn [c01_osl]; [apply (Hs sl cache); left; reflexivity | unfold W; reflexivity]. }
+        rewrite E. f_equal. apply IH; [exact Hrest | right; reflexivity]. }
+    intros Hs. apply Inv; [exact Hs | left; reflexivity].
   Qed.
 
   (* the same for the projection vectors: every call of the generated _get_proj_vectors on one object returns the fresh vectors *)
@@ -113,6 +116,10 @@ From PR Require Import Base.Num Model.Grid Model.C01_Area Model.C01_Cache Proofs
 
 Lemma c01_combine_fst_snd {A B} (l : list (A * B)) : combine (map fst l) (map snd l) = l.
 Proof. induction l as [|[x y] l IH]; cbn; [reflexivity|now rewrite IH]. Qed.
+
+Lemma c01_map_map2 {A B C} (f : A -> B) (g : B -> C) (l : list (list A)) :
+  map (map g) (map (map f) l) = map (map (fun x => g (f x))) l.
+Proof. rewrite map_map. apply map_ext. intros r. apply map_map. Qed.
 
 Section ImpInstance.
   Context {T : Type} (OP : ops T) (invT : T * T -> T * T) (a : area T).
@@ -151,25 +158,17 @@ Section ImpInstance.
     c01_fresh_value c01_pc_inst c01_inv_inst self sl =
     c01_unzip (map (map invT) (c01_grid_fn OP a (fst (c01_sel a sl)) (snd (c01_sel a sl)))).
   Proof.
-    intros Hs. destruct (c01_sel_ok a sl Hs) as [Hr Hc].
+    intros Hs. destruct (c01_sel_ok invT invT a sl Hs) as [Hr Hc].
     unfold c01_fresh_value, c01_pc_inst, c01_inv_inst. cbn [fst snd].
-    change (map (map fst) ?g, map (map snd) ?g) with (c01_unzip g).
-    rewrite <- surjective_pairing. rewrite c01_zip2_unzip. rewrite c01_coords_numpy_fn by assumption.
-    now rewrite <- surjective_pairing.
+    rewrite c01_zip2_unzip, <- surjective_pairing. now rewrite c01_coords_numpy_fn by assumption.
   Qed.
 
   (* H_slice for every in-range selection *)
   Lemma c01_H_slice_inst self rows cols : c01_in_range (height a) rows -> c01_in_range (width a) cols ->
-    (c01_slice_inst (fst (c01_fresh_value c01_pc_inst c01_inv_inst self None)) (rows, cols),
-     c01_slice_inst (snd (c01_fresh_value c01_pc_inst c01_inv_inst self None)) (rows, cols))
-    = c01_fresh_value c01_pc_inst c01_inv_inst self (Some (rows, cols)).
+    c01_H_slice_at c01_pc_inst c01_inv_inst c01_slice_inst self (rows, cols).
   Proof.
-    intros Hr Hc. rewrite (c01_fresh_value_inst self None I). rewrite (c01_fresh_value_inst self (Some (rows, cols))) by (split; assumption).
-    unfold c01_unzip, c01_slice_inst. cbn [fst snd c01_sel]. rewrite !map_map.
-    f_equal.
-    - rewrite <- (c01_select_grid (fun p => fst (invT p)) (nan OP) rows cols Hr Hc).
-      do 2 f_equal. rewrite map_map. apply map_ext. intros r. now rewrite !map_map.
-    - rewrite <- (c01_select_grid (fun p => snd (invT p)) (nan OP) rows cols Hr Hc).
-      do 2 f_equal. rewrite map_map. apply map_ext. intros r. now rewrite !map_map.
+    intros Hr Hc. unfold c01_H_slice_at. rewrite (c01_fresh_value_inst self None I). rewrite (c01_fresh_value_inst self (Some (rows, cols))) by (split; assumption).
+    unfold c01_unzip, c01_slice_inst. cbn [fst snd c01_sel]. rewrite !c01_map_map2.
+    f_equal; apply c01_select_grid; assumption.
   Qed.
 End ImpInstance.
